@@ -287,10 +287,10 @@ def run_shard(acc, shard, nshards, seed, tier):
                     + (['session:liquidation-order'] if any(e['ev'] == 'submit' and e.get('phase') == 'liquidation' for e in r['trace']) else []),
                     violations=vios, sub='session-orders',
                     sample=dict(cfg=spec['cfg'], routes=spec['routes'], orders=r['orders'][:4]) if dup else None)
-    runner.hyp_search(acc, sess, chk_s, 8 if tier == 'quick' else 400, seed + 3, tier, known=known, shrink_calls=10, max_shrink_sigs=1,
+    runner.hyp_search(acc, sess, chk_s, 16 if tier == 'quick' else 400, seed + 3, tier, known=known, shrink_calls=10, max_shrink_sigs=1,
                       describe=lambda spec: dict(kind='session', spec=spec))
     # orders the simulator creates itself: forced liquidations of held, highly leveraged isolated-margin positions
     liq = sessions.session(minutes=(60, 160), kinds=('futures',), modes=('isolated',), leverages=(10, 20, 50, 100, 125), max_data=0, warmup=(False,),
                            align_len=True, structural=False, program=dict(busy=True, hold=True, cycle=True))
-    runner.hyp_search(acc, liq, lambda spec: dict(chk_s(spec), sub='session-orders-isolated-margin'), 6 if tier == 'quick' else 300, seed + 5, tier, known=known,
+    runner.hyp_search(acc, liq, lambda spec: dict(chk_s(spec), sub='session-orders-isolated-margin'), 12 if tier == 'quick' else 300, seed + 5, tier, known=known,
                       shrink_calls=10, max_shrink_sigs=1, describe=lambda spec: dict(kind='session', spec=spec))
